@@ -604,6 +604,9 @@ def gen_C06(r):
                      stop_early_p=0.1)
         return op
     ops.append(run_op(again_p=0.0))
+    if r.random() < 0.06:
+        # cond itself started by a task of another run (or from a shell that exports these)
+        ops[-1]["env"] = {"COND_OUT": "/nonexistent/outer.task", "COND_NAME": "outer", "COND_DEPS": ""}
     cands = [len(ops) - 1]
     plan = r.choice(["run", "run2", "arch", "arch", "gc"])
     if plan == "run2":
@@ -621,6 +624,10 @@ def gen_C06(r):
             # an earlier attempt that was killed somewhere in the middle (often inside the copy loop)
             ops.append({"op": "restore", "archive": "A0", "cwd": "", "kill": int(10 ** r.uniform(2.0, 2.9))})
         ops.append({"op": "restore", "archive": "A0", "cwd": ""})
+        if r.random() < 0.15:
+            # a damaged copy of the archive, restored by a cond whose parent ignores SIGCHLD (tar's exit status is
+            # only available if cond puts the default disposition back)
+            ops[-1] = dict(ops[-1], corrupt={"kind": "truncate", "frac": r.choice([0.5, 0.7, 0.9])}, sig_ign=["CHLD"])
         cands += [len(ops) - 1] * 4
     elif plan == "gc":
         ops.append(run_op(again_p=0.5))
@@ -783,6 +790,9 @@ def gen_C16(r):
     scn["knobs"]["p_async"] = r.choice([0.0, 1e-3, 5e-3, 2e-2])
     if r.random() < 0.2:
         S.add_include(r, scn)          # the signal may land while an include()d file is being evaluated
+    if r.random() < 0.12:
+        # a COND file that changes the disposition of some other signal while it is parsed
+        scn["cond_prelude"] = r.choice(sorted({S.split_tid(t)[0] for t in scn["tasks"]}))
     ops = []
     if r.random() < 0.15:
         exps_ = [t for t, d in scn["tasks"].items() if d["kind"] == "exp"]
@@ -1160,8 +1170,13 @@ def gen_C18(r):
             ops.append({"op": "plant", "items": [r.choice([{"kind": "remove_recorded_dir", "idx": r.randrange(6)},
                                                            {"kind": "relocate_recorded", "idx": r.randrange(6), "what": "version"}])]})
         ops.append(op)
-        if ops[0]["op"] == "git" and r.random() < 0.3:
+        if ops[0]["op"] == "git" and r.random() < 0.45:
             ops.append({"op": "git", "action": "commit", "name": "c%d" % (k + 1)})
+    commits_ = [o["name"] for o in ops if o["op"] == "git" and o.get("action") == "commit"]
+    if len(commits_) >= 2 and combines and r.random() < 0.6:
+        # back to an older commit: other versions are selected although nothing needs to run - the entries follow
+        ops.append({"op": "git", "action": "checkout", "target": r.choice(commits_[:-1])})
+        ops.append({"op": "run", "target": r.choice(combines), "flags": {}, "cwd": "", "gap": 1.0, "scripts": {}})
     scn["history"] = ops
     return scn
 
